@@ -543,6 +543,8 @@ PATTERN_EXAMPLES = {
     "^(\\+|-)?[0-9]+$": ["0", "+1", "-12", "123"],
     "^[a-zA-Z_][a-zA-Z0-9_]{0,5}$": ["a", "_", "ab_1", "Foo", "abcdef"],
     "^[\\U00010000-\\U0010FFFF]?[a-c]$": ["a", "\U0001F600b", "c"],
+    # non-ASCII characters written directly in the pattern
+    "^[a-z\u00e4\u00f6\u00fc\u00df]+$": ["c", "ac", "abc", "gr\u00fcn", "\u00e4", "stra\u00dfe"],
     # astral ranges of different widths (same / adjacent / three / many high surrogates)
     "^[\\U0001F000-\\U0001FAFF]+$": ["\U0001F600", "\U0001F300\U0001F914", "\U0001F000", "\U0001FAFF", "\U0001F400\U0001F7FF"],
     "^[a-z\\U0001F600-\\U0001F64F]{1,3}$": ["a", "\U0001F600", "z\U0001F64F", "\U0001F610b"],
@@ -550,7 +552,7 @@ PATTERN_EXAMPLES = {
 }
 PATTERN_POOL = list(PATTERN_EXAMPLES)
 # all of these accept "c", "ac" and "abc"
-COMPATIBLE_PATTERNS = ["^[a-z]+$", "^[a-zA-Z_][a-zA-Z0-9_]{0,5}$", "^[\\x20-\\x7e]*$", "^a?b*c+$", "^[^x]{1,3}$"]
+COMPATIBLE_PATTERNS = ["^[a-z\u00e4\u00f6\u00fc\u00df]+$", "^[a-z]+$", "^[a-zA-Z_][a-zA-Z0-9_]{0,5}$", "^[\\x20-\\x7e]*$", "^a?b*c+$", "^[^x]{1,3}$"]
 
 DESC_WORDS = ["value", "must", "be", "the", "a", "an", "shall", "not", "empty", "item",
               "of", "list", "with", "at", "least", "one", "element", "Constraint", "AASd-1:",
